@@ -56,4 +56,8 @@ def run(pid, tier, replay=None):
         ck.sample(json.loads(fh.readline()))
     ck.cov["rule"] = ("one case = one (numerator, denominator, input history) of the TLC enumeration (%s), "
                       "run on the real a_tf from zero state, again after zeroing, with the input delayed and scaled; the RC filters for alpha = k/8 on every history" % ("orders 0..2, 3 coefficient and 3 input values, history length 4" if q else "orders 0..2 over 5 coefficient and 5 input values with history length 4; orders 0..3 over 3 values with history length 5"))
+    # the C++ member functions of the same structures must behave like the C functions (Facade.tla)
+    from checks import facade
+    facade.part(ck, sc, ['tf', 'lpf', 'hpf'])
+    ck.assumptions.append('C++ member functions of a_tf, a_lpf, a_hpf: each compared with the C function it stands for on identically prepared objects with pairwise distinct arguments (object bytes, result, written arrays)')
     return ck.finish(exhaustive=not ck.violations)
